@@ -397,9 +397,13 @@ class DocstringParser(AbstractDocstringParser):
                 griffe_node = griffe_node.functions[part]
             elif part in griffe_node.attributes:
                 griffe_node = griffe_node.attributes[part]
-            elif part in getattr(griffe_node, "overloads", {}):
+            elif getattr(griffe_node, "overloads", {}).get(part):
                 # Overloaded functions without an implementation are only listed with their overloads
                 griffe_node = griffe_node.overloads[part][0]
+            elif part in griffe_node.members and griffe_node.members[part].is_alias:
+                # The name was bound again later in the module (e.g. by a guarded re-import of a faster implementation),
+                # so the docstring parser only knows the alias and there is no docstring to be found
+                return None
             elif part == "__init__" and griffe_node.is_class:
                 return None
             else:  # pragma: no cover
